@@ -68,7 +68,7 @@ def dispatchCli : List String → Option (Obs × Option Obs)
     let patRoots := rootArgs.filter fun p => !exists_ p
     let visited : List (Bytes × Bytes) :=
       if fl.recurse then
-        dirRoots.flatMap fun p => (Seqls.walk t fl.all 12 [] p ((realDir p).getD [])).1
+        dirRoots.flatMap fun p => (Seqls.walk t fl.all (Seqls.walkBound t) [] p ((realDir p).getD [])).1
       else dirRoots.map fun p => (p, (realDir p).getD [])
     let dirResults : List (Except Err (List Seq)) :=
       visited.map fun (shown, real) => scanDir (some (Seqls.dirSpecOf t real)) shown o none
